@@ -688,6 +688,8 @@ def _impl_once(c):
             return xc.impl_bcast(c)
         if c["entry"] == "meta":
             return xc.impl_meta(c)
+        if c["entry"] == "opget":
+            return xc.impl_opget(c)
         raise ValueError(c["entry"])
     except _Timeout:
         return {"err": "TIMEOUT"}
@@ -713,6 +715,8 @@ def request(c):
         return xc.request(c)
     if c["entry"] == "meta":
         return dict((k, c[k]) for k in ("entry", "ops", "without", "have", "ns"))
+    if c["entry"] == "opget":
+        return dict((k, c[k]) for k in ("entry", "keys", "without"))
     return {"entry": c["entry"]}
 
 
@@ -865,6 +869,8 @@ def compare(c, io, drv):
         return xc.compare_bcast(c, io, drv)
     if c["entry"] == "meta":
         return xc.compare_meta(c, io, drv)
+    if c["entry"] == "opget":
+        return xc.compare_opget(c, io, drv)
     return [("model", "unknown entry")]
 
 
@@ -1571,9 +1577,18 @@ def tally(eng, c, io):
         xc.tally(eng, c, io)
     elif c["entry"] == "meta":
         xc.tally_meta(eng, c, io)
+    elif c["entry"] == "opget":
+        xc.tally_opget(eng, c, io)
 
 
 def shrink(c):
+    if c["entry"] == "opget":
+        for k in ("keys", "without"):
+            for i in range(len(c[k])):
+                yield dict(c, **{k: c[k][:i] + c[k][i + 1:]})
+        if c.get("form", "list") != "list" or c.get("wform", "list") != "list":
+            yield dict(c, form="list", wform="list")
+        return
     if c["entry"] == "meta":
         for k in ("ops", "without", "ns", "have"):
             if c[k]:
@@ -1662,7 +1677,7 @@ def _shrink_node(nd):
 
 
 def neighbours(c):
-    if c["entry"] in ("exprE", "bcastE", "meta"):
+    if c["entry"] in ("exprE", "bcastE", "meta", "opget"):
         return
     if c["entry"] == "bcast":
         for x in neighbours_bcast(c):
@@ -1704,6 +1719,8 @@ def classify(c, io, drv):
         return "optable"
     if c["entry"] == "meta":
         return "metaclass-user"
+    if c["entry"] == "opget":
+        return "opmethod-get:" + ("raises" if "err" in io else "entries")
     if c["entry"] == "bcast":
         return classify_bcast(c, io, drv)
     if c["entry"] in ("exprE", "bcastE"):
